@@ -30,6 +30,9 @@ pub enum M2 {
 /// timeline semantics (DESIGN Appendix A); `side_done` mirrors the harness (a side's slot is taken at its terminal)
 pub struct Model2 {
   pub op: M2,
+  /// the other documented reading (skip_until: the notifier's completion does not open the gate;
+  /// sample: the sampler's completion is not a tick)
+  pub alt: bool,
   pub want: Want,
   done_side: [bool; 2],
   completed: [bool; 2],
@@ -46,7 +49,7 @@ pub struct Model2 {
 }
 impl Model2 {
   pub fn new(op: M2) -> Self {
-    Model2 { op, want: Want::new(), done_side: [false; 2], completed: [false; 2], qa: [0; K], qa_h: 0, qa_t: 0, qb: [0; K], qb_h: 0, qb_t: 0, la: None, lb: None, skipping: true, pending: None }
+    Model2 { op, alt: false, want: Want::new(), done_side: [false; 2], completed: [false; 2], qa: [0; K], qa_h: 0, qa_t: 0, qb: [0; K], qb_h: 0, qb_t: 0, la: None, lb: None, skipping: true, pending: None }
   }
   pub fn step(&mut self, e: TEvt) {
     let s = e.s as usize;
@@ -155,7 +158,7 @@ impl Model2 {
           } else {
             self.want.push(K_COMPLETE, 0, 0)
           }
-        } else if e.k != K_ERROR {
+        } else if e.k == K_NEXT || (e.k == K_COMPLETE && !self.alt) {
           self.skipping = false
         }
       }
@@ -170,8 +173,10 @@ impl Model2 {
           }
         } else if e.k == K_ERROR {
           self.want.push(K_ERROR, e.v, 0)
-        } else if let Some(v) = self.pending.take() {
-          self.want.next(v)
+        } else if e.k == K_NEXT || !self.alt {
+          if let Some(v) = self.pending.take() {
+            self.want.next(v)
+          }
         }
       }
     }
@@ -190,10 +195,13 @@ macro_rules! c04_harness {
         $build.actual_subscribe($probe);
       }
       let mut model = Model2::new($m);
+      let mut model_alt = Model2::new($m);
+      model_alt.alt = true;
       let mut i = 0;
       while i < K {
         let e = draw_tevt();
         model.step(e);
+        model_alt.step(e);
         if e.s == 0 {
           if e.k == K_NEXT {
             if let Some(o) = sa.as_mut() {
@@ -220,7 +228,7 @@ macro_rules! c04_harness {
         i += 1;
       }
       crate::cover!(unsafe { LEN } >= 2, "probe saw at least two events");
-      assert!(model.want.matches_log(), "two-input combinator: delivered sequence differs from the timeline semantics");
+      assert!(model.want.matches_log() || model_alt.want.matches_log(), "two-input combinator: delivered sequence differs from the timeline semantics");
       assert!(unsafe { !GRAMMAR_BROKEN }, "two-input combinator: event after terminal");
     }
     #[cfg(kani)]
